@@ -44,7 +44,7 @@ CHECKS = {
                 text="about 500k (quick) compiles of valid, mutated and over-limit programs for all eight registered targets and several flag sets under address/UB sanitizers; after every compile the harness checks the three-way result contract and emulates non-fatal programs (also mutated ones the compiler accepted); includes every opcode with x2/x4 prefix on operands of exactly the multiplied sizes (also beyond 8 bytes)",
                 note="sanitizers see only heap/stack/global red-zone and array-subscript violations; bounded time is restated as a 240 s per-case watchdog"),
     "C13": dict(engine="api", cat="exploration", tech="runtime round-trip monitoring (encode, decode, field comparison, re-encode, differential emulation)",
-                text="about 180k (quick) generated programs incl. boundary encodings and arbitrary declared alignments are serialised and reconstructed; all public fields, the second encoding and emulation results are compared; run with release and ASan builds",
+                text="about 60k (quick) generated programs under each of two builds incl. boundary encodings and arbitrary declared alignments are serialised and reconstructed; all public fields, the second encoding and emulation results are compared; run with release and ASan builds",
                 note="names are not part of the format; constants compared on their declared width"),
     "C14": dict(engine="api", cat="exploration", tech="sanitizer-instrumented fuzzing of the parser: structured generation with mutations and directed faults (gcc ASan/UBSan) plus coverage-guided libFuzzer (clang), both with an error-record oracle",
                 text="300k (quick) / 3M (thorough) texts of nine kinds parsed under ASan/UBSan; error line numbers, reporting of injected faults at their line, compile and free of every returned program are checked",
@@ -53,7 +53,7 @@ CHECKS = {
                 text="each generated program is rendered four ways (formatting noise, CRLF, literal spellings, constants as in-place literal operands, 8-byte literals with and without the L suffix) and every parse must be error free and equal to the API-built program; spacing noise includes blanks before the first and after the last token; a text naming an undeclared operand must report an error or keep every instruction",
                 note="printer covers integer/hex literal spellings; programs writing a destination twice are outside the text format"),
     "C16": dict(engine="api", cat="exploration", tech="ASan + LeakSanitizer over random legal lifecycle sequences driven by an ownership model, with heap-growth measurement",
-                text="80k random legal lifecycle sequences (one program in six is 12-40 instructions long; executors kept across compiles and resets; programs with several errors at once) under ASan, repeated under LeakSanitizer in three environments, plus a K/4K iteration heap growth comparison",
+                text="16k (quick) random legal lifecycle sequences per build/environment (one program in six is 12-40 instructions long; executors kept across compiles and resets; programs with several errors at once) under ASan, repeated under LeakSanitizer in three environments, plus a K/4K iteration heap growth comparison",
                 note="legality model is the harness'; only leaks reachable at exit or growth visible in mallinfo2 are seen"),
     "C17": dict(engine="api", cat="exploration", tech="runtime comparison of repeated compilations across histories, code placements, reset and processes/debug levels",
                 text="every program compiled twice with different code-memory history and placement, after reset, and in fresh processes under three debug levels (and twice under ORC_CODE=debug); bytes, listing and result compared for all eight targets; repeat runs of the same code on the same inputs through an executor before and after it was used for a larger n and with every caller-saved vector register filled with different patterns at entry (incl. four-accumulator programs)",
